@@ -149,6 +149,7 @@ def dispatch (op : String) (args : List Sexp) : String :=
   | "c20.abs2gds" => "unsupported"
   | "c20.abs2lef" => "unsupported"
   | "c20.lefrt" => "unsupported"
+  | "c20.dup" => "unsupported"
   | "serde.gds" => "unsupported"
   | "serde.gdsbytes" => "unsupported"
   | "serde.lef" => "unsupported"
